@@ -148,7 +148,12 @@ func (wf *WALFileType) Replay(dryRun bool) error {
 
 		// Note that only TG data that did not have a COMMITCOMPLETE record are replayed
 		rootDir := filepath.Dir(wf.FilePtr.Name())
-		tgID, wtSets := ParseTGData(tgSerialized, rootDir)
+		tgID, wtSets, err := parseTGData(tgSerialized, rootDir)
+		if err != nil {
+			// the record passed its checksum but is not a serialized transaction group: it is damage, not data
+			log.Error(fmt.Sprintf("skip undecodable TG data in WAL. tgID=%d: %v", tgid, err))
+			continue
+		}
 		if err := wf.replayTGData(tgID, wtSets); err != nil {
 			return fmt.Errorf("replay transaction group data. tgID=%d, "+
 				"write transaction size=%d:%w", tgID, len(wtSets), err)
